@@ -292,6 +292,21 @@ def meta_fields_changed(a_json, b_json):
     return None
 
 
+def meta_delta(a_json, b_json):
+    """-> (changed fields, their values before, their values after) of two metadata JSON texts."""
+    fields = meta_fields_changed(a_json, b_json)
+    if fields is None:
+        return None, a_json, b_json
+    a, b = json.loads(a_json), json.loads(b_json)
+    if isinstance(a, dict):
+        a, b = [a], [b]
+    exp = [{k: x.get(k, "<absent>") for k in fields if x.get(k, "<absent>") != y.get(k, "<absent>")}
+           for x, y in zip(a, b)]
+    obs = [{k: y.get(k, "<absent>") for k in fields if x.get(k, "<absent>") != y.get(k, "<absent>")}
+           for x, y in zip(a, b)]
+    return fields, exp, obs
+
+
 def explained_by_inputs(parts, snap_a, snap_b):
     """Is a result difference in ``parts`` explained by the two calls having seen
     different recordings?  Data parts need different samples / time steps;
@@ -341,6 +356,21 @@ class Holder:
         self.hist = ()
         self.model_mr = []          # intended edits of the recordings
         self.model_ms = {}          # key -> intended edits of that settings object
+        self.cur_views = []         # content of every result after the last operation
+
+    def __deepcopy__(self, memo):
+        # ONE deepcopy of (recordings, settings, results) keeps every aliasing relation between
+        # them exactly as it is in the original; the bookkeeping holds immutable entries that
+        # are only ever replaced, so shallow copies of the containers are exact.
+        new = Holder.__new__(Holder)
+        new.recs, new.settings, new.results = copy.deepcopy((self.recs, self.settings, self.results), memo)
+        new.snaps = list(self.snaps)
+        new.log = list(self.log)
+        new.hist = self.hist
+        new.model_mr = list(self.model_mr)
+        new.model_ms = {k: list(v) for k, v in self.model_ms.items()}
+        new.cur_views = list(self.cur_views)
+        return new
 
 
 class System:
@@ -355,10 +385,17 @@ class System:
         self.mr_ops = [dict(op="Mr", what=m) for m in root["mr"]]
         self.ms_targets = list(root.get("ms_targets", ["last"]))
         first = root["first"]
+        # the first operation group of the root: "Mr" | "Mr:<what>" | "<kind>" | "<kind>|<width>"
         if first == "Mr":
             self.first_ops = list(self.mr_ops)
+        elif first.startswith("Mr:"):
+            self.first_ops = [o for o in self.mr_ops if o["what"] == first[3:]]
+        elif "|" in first:
+            self.first_ops = [o for o in self.p_ops if _key(o) == first]
         else:
             self.first_ops = [o for o in self.p_ops if o["kind"] == first]
+        self.depth = root["depth"]
+        self.probing = False
         self.judged = set()
         self.ref_cache = {}
         self.intended_cache = {}
@@ -368,9 +405,7 @@ class System:
         return Holder(make_recordings(self.nrec))
 
     def clone(self, h):
-        # one deepcopy of the whole graph keeps every aliasing relation between
-        # recordings, settings and results exactly as it is in the original
-        return copy.deepcopy(h)
+        return copy.deepcopy(h)     # see Holder.__deepcopy__
 
     def menu(self, h):
         if not h.hist:
@@ -389,7 +424,7 @@ class System:
     def canon(self, h):
         return digest(dict(recs=snap_recordings(h.recs),
                            settings={k: jsonable(s.attr_dict) for k, s in sorted(h.settings.items())},
-                           results=[view(r) for r in h.results]))
+                           results=h.cur_views))      # re-read from the objects at the end of apply()
 
     def observe(self, h):
         return None     # canon() is the complete observable state (no abstraction to validate)
@@ -416,7 +451,25 @@ class System:
             out = None
         h.hist = h.hist + (op,)
         self._results_unchanged(h, op, ctx)
+        if not muted and op["op"] != "P" and len(h.hist) >= self.depth:
+            self._leaf_probe(h, op, ctx)
         return out
+
+    def _leaf_probe(self, h, op, ctx):
+        """An edit at the depth bound: process once more (on a clone) with the edited / the last
+        used settings object, so that the effect of the edit on the next call is judged too."""
+        ps = [o for o in h.hist if o["op"] == "P"]
+        if not ps:
+            return
+        pop = ps[0] if (op["op"] == "Ms" and op["target"] == "first") else ps[-1]
+        h2 = copy.deepcopy(h)
+        self.probing = True
+        try:
+            self.apply(h2, dict(op="P", kind=pop["kind"], w=pop["w"]))
+        finally:
+            self.probing = False
+        ctx.count("transitions")
+        ctx.count("leaf_probes")
 
     # ---- the fresh-state reference -----------------------------------------------
     def _intended(self, mr):
@@ -462,9 +515,15 @@ class System:
         for part in sorted({p for p, _ in changed}):
             idx = [i for p, i in changed if p == part]
             exp = obs = None
-            if part in ("meta", "dt", "orientation"):
+            if part in ("dt", "orientation"):
                 exp = [before[part][i] for i in idx]
                 obs = [after[part][i] for i in idx]
+            elif part == "meta":
+                exp, obs = [], []
+                for i in idx:
+                    _, e, o = meta_delta(before[part][i], after[part][i])
+                    exp.append(e)
+                    obs.append(o)
             ctx.violation(f"C09:process:{path}:inputs-modified:{part}", self.root,
                           detail=dict(detail, part=part, recordings_changed=idx),
                           expected=exp if exp is not None else "recordings identical to their snapshot before the call",
@@ -549,6 +608,12 @@ class System:
                                    n_after, dict(detail, earlier_call_at=e["pos"]), None, preview(res))
                 break
 
+        h.results.append(res)
+        h.snaps.append(v)
+        h.log.append(entry)
+        if self.probing:
+            return v.get("type")
+
         # (c) immediate repeat, on a clone of the whole state
         h2 = copy.deepcopy(h)
         s2 = h2.settings[key]
@@ -563,10 +628,8 @@ class System:
                   fft_settings_after_second_call=jsonable(s2.fft_settings))
         self._report_inputs(ctx, path, b2, a2, ids2, [id(r) for r in h2.recs], d2)
         self._judge_repeat(ctx, path, v, view(res2), before, b2, pre_fft, n_after, n2, d2, preview(res), preview(res2))
-
-        h.results.append(res)
-        h.snaps.append(v)
-        h.log.append(entry)
+        h2.hist = tuple(d2["hist"])
+        self._results_unchanged(h2, op, ctx, upto=len(h2.results))
         return v.get("type")
 
     def _judge_repeat(self, ctx, path, v1, v2, in1, in2, pre_fft1, n1, n2, detail, prev1, prev2):
@@ -591,22 +654,23 @@ class System:
                                   "returned a different result")
 
     # ---- (d) earlier results are immutable ---------------------------------------------
-    def _results_unchanged(self, h, op, ctx):
+    def _results_unchanged(self, h, op, ctx, upto=None):
         cls = {"P": "process-call", "Ms": "settings-edit", "Mr": "recording-edit"}[op["op"]]
-        n = len(h.results) - (1 if op["op"] == "P" else 0)
+        n = len(h.results) - (1 if op["op"] == "P" else 0) if upto is None else upto
+        h.cur_views = [view(r) for r in h.results]
         for i in range(n):
-            now = view(h.results[i])
+            now = h.cur_views[i]
             ctx.count("earlier_results_rechecked")
             d = view_diff(h.snaps[i], now)
             for part in d:
-                fields = meta_fields_changed(h.snaps[i].get(part, "null"), now.get(part, "null")) \
-                    if part == "meta" else None
+                fields, exp, obs = (None, "content as returned", f"{part} changed")
+                if part == "meta":
+                    fields, exp, obs = meta_delta(h.snaps[i].get(part, "null"), now.get(part, "null"))
                 ctx.violation(f"C09:result:changed-by-later-{cls}:{part}", self.root,
                               detail=dict(hist=list(h.hist), result_returned_by=h.log[i]["pos"],
                                           settings_object=h.log[i]["key"], changed_by=op, part=part,
                                           meta_fields=fields),
-                              expected=h.snaps[i].get(part) if part == "meta" else "content as returned",
-                              observed=now.get(part) if part == "meta" else f"{part} changed",
+                              expected=exp, observed=obs,
                               explanation=f"the {part} of a result returned earlier changed when "
                                           f"{'the settings object was edited' if cls == 'settings-edit' else 'a recording was edited' if cls == 'recording-edit' else 'process() was called again'} "
                                           f"afterwards (the result shares mutable state with its inputs)")
@@ -649,7 +713,13 @@ def roots(tier, seed):
     out = []
 
     def add(nrec, fft, depth, kinds, widths, mr, ms_targets):
-        for first in list(kinds) + ["Mr"]:
+        # one root per first operation (depth 3) / per kind of the first operation (depth 2);
+        # together the roots cover every history of the menu exactly once
+        if depth >= 3:
+            firsts = [f"{k}|{w}" for k in kinds for w in widths] + ["Mr:" + m for m in mr]
+        else:
+            firsts = list(kinds) + ["Mr"]
+        for first in firsts:
             out.append(_root(nrec, fft, first, depth, kinds, widths, mr, ms_targets))
 
     if tier == "quick":
